@@ -43,8 +43,8 @@ Diff(o, e) ==
          (IF e.outlen # o.n + Mem(D) THEN "outlen" ELSE IF e.nsamp # o.n THEN "nsamp"
           ELSE IF e.calls # <<<<"g", o.n>>>> \/ ~e.same THEN "calls" ELSE IF e.pos # gpos' THEN "pos"
           ELSE IF e.delays # D.delays THEN "delays" ELSE "")
-  ELSE IF o.k = "F" THEN
-         (IF e.cnt # Len(SelIdx(o)) THEN "cnt" ELSE IF e.outlen # o.n * Len(SelIdx(o)) THEN "outlen"
+  ELSE IF o.k = "F" THEN LET cnt == Len(SelIdx(o)) IN
+         (IF e.cnt # cnt THEN "cnt" ELSE IF e.outlen # o.n * cnt THEN "outlen"
           ELSE IF e.nsamp # o.n THEN "nsamp" ELSE IF ~FCallsOK(e.calls, o.n, o.fft) \/ ~e.same THEN "calls"
           ELSE IF e.pos # gpos' THEN "pos" ELSE IF e.delays # D.delays THEN "delays" ELSE "")
   ELSE IF o.k = "Gen" THEN
